@@ -256,6 +256,9 @@ func runAgreeInBubble(s AgreeScript) (res vt.Result) {
 	if s.modern() {
 		// both ends support 2026-07-28 over this link: nothing the client sent may have been refused
 		for _, ex := range link.HTTP.Exchanges() {
+			if ex.Method != "POST" {
+				continue // the clause is about the messages the client posts, not about probes (GET, OPTIONS, ...) a server may decline
+			}
 			if st := ex.Status(); st < 200 || st > 299 {
 				res.Failf("the SDK client's own request %s %s (header %v, body %s) was refused with HTTP %d: %s", ex.Method, ex.URL, ex.Header, clip(ex.Body), st, clip(ex.Written()))
 			}
